@@ -173,6 +173,7 @@ class Path:
         self.end = None  # 'return' | 'stop' | 'abort' | 'bound'
         self.decls = {}  # symbol -> sort
         self.havoced = []  # (place-key prefix, generation): sub-places written by a callee through a &mut argument
+        self.palias = {}  # key of a (non-local) place that received a non-scalar copy -> source place
 
     def clone(self):
         p = Path()
@@ -184,6 +185,7 @@ class Path:
         p.trace = list(self.trace)
         p.visits = dict(self.visits)
         p.havoced = list(self.havoced)
+        p.palias = dict(self.palias)
         p.decls = self.decls  # shared
         return p
 
@@ -279,9 +281,13 @@ class Sym:
         if k == "local":
             return path.alias.get(p[1], p)
         if k == "field":
-            return ("field", self.resolve(path, p[1]), p[2], p[3])
+            inner = self.resolve(path, p[1])
+            inner = path.palias.get(self.key(inner), inner)
+            return ("field", inner, p[2], p[3])
         if k == "variant":
-            return ("variant", self.resolve(path, p[1]), p[2])
+            inner = self.resolve(path, p[1])
+            inner = path.palias.get(self.key(inner), inner)
+            return ("variant", inner, p[2])
         if k == "index":
             return ("index", self.resolve(path, p[1]), p[2])
         if k == "deref":
@@ -540,6 +546,12 @@ class Sym:
         if p[0] == "local" and p[1] in path.alias:
             del path.alias[p[1]]
             rp = p
+        if p[0] != "local":
+            k_ = self.key(rp)
+            if v.kind == "opaque" and src is not None:
+                path.palias[k_] = src
+            elif k_ in path.palias:
+                del path.palias[k_]
         self.store_val(path, rp, v)
 
     def run(self, entry, stop_blocks=(), stop_after=None, init=None, max_paths=256, stop_at_call=None):
@@ -728,9 +740,13 @@ def m_saturating_sub(sym, path, args, dty):
 
 def _len_sym(sym, path, refv):
     """Uninterpreted length of the container a reference points to (assumed unchanged inside the region)."""
-    if refv.kind != "ref":
+    if refv.kind == "opaque" and refv.t.startswith(sym.prefix):
+        # a reference value held in a place (e.g. a `&[u8]` parameter): keyed by that place, like PtrMetadata
+        key = "len(%s)" % refv.t[len(sym.prefix):]
+    elif refv.kind == "ref":
+        key = "len(%s)" % sym.key(refv.t)
+    else:
         return None
-    key = "len(%s)" % sym.key(refv.t)
     if key not in path.store:
         path.store[key] = sym.sym_for(key, "usize")
     return path.store[key]
